@@ -14,7 +14,12 @@ from .common import (LABELS, Scenario, compositions, gen_batch, is_linear, needs
 def incr_vs_batch(env, lp, npol, N, A, d, max_chunks, m=1, labels='int', twin=False, rounds=1):
     arms = LABELS[labels][:A]
     ctxd = d if needs_contexts(lp, npol) else 0
-    dec, rew, ctx = gen_batch(env, 'h', arms, N, reward_kind(lp), d=ctxd, fixed_n=N)
+    binarizer = None
+    rk = reward_kind(lp)
+    if lp == 'thompson_bin':
+        # Thompson Sampling with an uninterpreted binarizer (not necessarily idempotent on {0, 1}) on raw real rewards
+        lp, rk, binarizer = 'thompson', 'real', env.ufunc('bin', 2)
+    dec, rew, ctx = gen_batch(env, 'h', arms, N, rk, d=ctxd, fixed_n=N)
     dec = np.asarray(dec)
     if npol and npol.startswith('clusters'):
         k = int(npol.split(':')[1])
@@ -23,7 +28,7 @@ def incr_vs_batch(env, lp, npol, N, A, d, max_chunks, m=1, labels='int', twin=Fa
     split = env.choose('split', compositions(N, max_chunks))
     if npol and npol.startswith('clusters') and split[0] < int(npol.split(':')[1]):
         return          # k-means needs at least k rows in the first fit: outside the property
-    batch, hp = new_mab(env, arms, lp, npol)
+    batch, hp = new_mab(env, arms, lp, npol, binarizer=binarizer)
     incr, _ = new_mab(env, arms, lp, npol, seed=hp['seed'], hp=hp)
 
     def sl(a, i, j):
@@ -99,6 +104,13 @@ def scenarios(tier):
                                 dict(lp=lp, npol=npol, N=N, A=2, d=d, max_chunks=3),
                                 weight=2 ** N * 2 ** N * 2, max_paths=80000,
                                 bounds=dict(lp=lp, np=npol, rows=N, arms=2, d=d)))
+    for npol in ([None, 'clusters:2', 'radius:cityblock'] if q else [None, 'clusters:2', 'radius:cityblock', 'lsh:1:1',
+                                                                     'knearest:2:cityblock']):
+        N = 3 if (q or npol) else 4
+        out.append(Scenario('thompson_bin.%s.N%d.d1' % (npol or 'none', N), incr_vs_batch,
+                            dict(lp='thompson_bin', npol=npol, N=N, A=2, d=1, max_chunks=3),
+                            weight=2 ** N * 2 ** N * 2, max_paths=80000, shards=4 if npol else 1,
+                            bounds=dict(lp='thompson + uninterpreted binarizer', np=npol, rows=N, arms=2, d=1)))
     out.append(Scenario('twin.ucb1.radius', incr_vs_batch,
                         dict(lp='ucb1', npol='radius:cityblock', N=2, A=2, d=1, max_chunks=2, twin=True), twin=True))
     return out
